@@ -1566,3 +1566,30 @@ def sib_qty_rule(rep, F):
         rep.violation("SIB-qty", "calc_value_size|width-max", "calc_value_size combines widths with %s: the width of the emitted sum is not the maximum of the widths of its addends" % ", ".join(H_short(x) for x in comb), {})
     if n_dyn == 0 and not comb:
         rep.lost("calc_value_size: no quantity-dependent get_coin_size call recognised")
+
+
+def recalc_all_rule(rep, F):
+    """RECALC-all: the send-all batcher re-prices every output of a proposal after every change"""
+    rep.rule("RECALC-all", "AssetCategorizer::recalculate_outputs walks the output proposals with a loop in which every iteration, on every path, calls estimate_output_cost and stores its results with set_min_ada and set_size (HIR must-analysis; a `continue` ends the path): a later UTxO can add quantity to a token that sits in an earlier, 'closed' output, and when the sum crosses a CBOR width boundary a cached size / minimum ADA is too small - the output is under-funded and the fee computed for a smaller transaction")
+    fid = find_fn(rep, F, "AssetCategorizer::recalculate_outputs")
+    if not fid or fid not in F.hir:
+        return
+    loops = [n for n in H.walk(F.hir[fid]["body"]) if n[0] == "for"]
+    if not loops:
+        rep.lost("recalculate_outputs has no loop over the outputs")
+        return
+    n = 0
+    for lp in loops:
+        src = json.dumps(lp[3])
+        if "tx_output_proposals" not in src:
+            continue
+        n += 1
+        for ev_name in ("estimate_output_cost", "set_min_ada", "set_size"):
+            rep.inst("RECALC-all")
+
+            def ev(x, ev_name=ev_name):
+                return (x[0] == "mcall" and x[2] == ev_name) or (x[0] == "call" and str(x[2] or "").endswith("::" + ev_name))
+            if not hir_must(lp[4], ev):
+                rep.violation("RECALC-all", "recalculate_outputs|%s" % ev_name, "AssetCategorizer::recalculate_outputs can finish an iteration over the output proposals without %s: an output whose token quantity grew (a later UTxO holding the same token) keeps the size and minimum ADA computed for the old quantity" % ev_name, {})
+    if n == 0:
+        rep.lost("recalculate_outputs: no loop over tx_output_proposals")
